@@ -116,6 +116,8 @@ pub fn run(report: &Report, thorough: bool) -> Evidence {
                         o.smart = smart;
                         // the last configuration is reached through update_engine (a live, re-configured context)
                         o.via_update = ci + 1 == ph_cfgs.len();
+                        // (the first configuration: a context created for a fixed layout and switched over by update-engine)
+                        o.via_switch = ci == 0;
                         let mut c = Ctx::new(&o).expect("ctx");
                         c.with_pre = false;
                         c
@@ -173,6 +175,8 @@ pub fn run(report: &Report, thorough: bool) -> Evidence {
                             o.smart = smart;
                             o.ansi = ansi;
                             o.via_update = ci + 1 == ph_cfgs.len();
+                        // (the first configuration: a context created for a fixed layout and switched over by update-engine)
+                        o.via_switch = ci == 0;
                             let mut c = Ctx::new(&o).expect("ctx");
                             c.with_pre = false;
                             c
@@ -270,6 +274,7 @@ pub fn run(report: &Report, thorough: bool) -> Evidence {
                         o.english = english;
                         o.ansi = ansi;
                         o.via_update = ci + 1 == fx_cfgs.len();
+                        o.via_switch = ci == 0;
                         // ... and has the number-pad option on (emoticons typed with the number pad's keys)
                         o.numpad = ci + 1 == fx_cfgs.len();
                         let mut c = Ctx::new(&o).expect("ctx");
